@@ -198,13 +198,14 @@ def cases(draw, fast=True):
     dlo = 0.3 if two else 0.05
     # "after relaxation from any start": also very short bunches whose tails are exactly zero on the grid
     zooms = [0.7, 1.0, 1.2, 1.5, 0.15, 0.25]
-    if not two and draw(st.integers(0, 5)) == 0:
+    if not two and draw(st.integers(0, 3)) == 0:
         # many steps per synchrotron period: the wake kick per step is a few thousandths of a cell or less, and the start
         # is far from equilibrium, so the kick map has to follow small changes of the wake over a long history (round-4
         # seed C05d: source-map entries refreshed only when the kick changed by more than 1e-3 cells)
-        n, P = 64, 2.0
+        n, P = 96, 2.0          # (on the 64 grid the discretisation allowance of the oracle is larger than what a stale kick does)
         steps = draw(st.sampled_from([1000, 2000, 4000]))
         zooms = [0.5, 2.0]
+        dlo = 0.2
     return dict(n=n, steps=steps, P=P, family=fam,
                 D=float(10 ** draw(st.floats(np.log10(dlo), np.log10(max(dmax, dlo * 1.2))))), zoom=draw(st.sampled_from(zooms)),
                 it=it, deriv=draw(st.sampled_from([3, 4])), clamped=draw(st.integers(0, 2)) == 0,
@@ -216,5 +217,5 @@ def cases(draw, fast=True):
 
 
 def subs(tier):
-    return [Sub("haissinski", cases(fast=(tier == "quick")), run_case, quick=96, thorough=1600, needs=("rel", "h5x"), shrink_budget=10,
+    return [Sub("haissinski", cases(fast=(tier == "quick")), run_case, quick=144, thorough=1600, needs=("rel", "h5x"), shrink_budget=10,
                 max_wall={"quick": 500, "thorough": 3000})]
